@@ -177,6 +177,15 @@ def list_ops(n_total):
                 ops.append(("rshift", ((f, False),), ((t1, n1), (t2, n2)), False, True))
             ops.append(("method", ((f, True),), ((t1, False), (t2, False)), False, True))
             ops.append(("rshift", ((f, True),), ((t1, False), (t2, False)), False, True))
+    # the same module named more than once in one list operand: the pairs are processed in order, the last
+    # occurrence decides (a >> [d, d] connects once; [~d, d] ends connected; [d, ~d, d] ends connected)
+    for f in idx:
+        for t in [i for i in idx if i != f]:
+            for pattern in ((False, False), (True, False), (False, True), (False, True, False), (True, False, True)):
+                spec = tuple((t, n) for n in pattern)
+                ops.append(("method", ((f, False),), spec, False, True))
+                ops.append(("rshift", ((f, False),), spec, False, True))
+            ops.append(("lshift", ((f, False), (f, False)), ((t, False),), True, False))
     for t in idx:
         for f1, f2 in itertools.permutations([i for i in idx if i != t], 2):
             for n1, n2 in ((False, False), (True, False), (False, True)):
